@@ -47,7 +47,12 @@ def run_case(ctx, case, model=True):
     any_full = any(any(mi["comp"][p["name"]]["full"]) for p in ptis)
     ctx.count("second_electric_pass", any_full)
     # the shaft lines are balanced once more when a second electric pass ran and some PTI/PTO shares the bus load
-    rebalance = any_full and any(any(m == 0 for m in R.elec_inputs(case)["comp"][p["name"]]["mode"]) for p in ptis)
+    def emode(name, t):
+        """sharing mode in force at step t: in full-PTI mode the shaft decides, whatever the mode says (D55)"""
+        if name in mi["comp"] and "full" in mi["comp"][name] and mi["comp"][name]["full"][t]:
+            return 1.0
+        return R.elec_inputs(case)["comp"][name]["mode"][t]
+    rebalance = any_full and any(any(emode(p["name"], t) == 0 for t in range(n)) for p in ptis)
     ctx.count("second_shaft_pass", rebalance)
     # ---- correspondence of the last shaft balance (Shaft.Line.again): with the status series that were given and the PTI/PTO's
     # final shaft power, the engines' outputs are those of `Shaft.balance` (when a second electric pass ran without a second
@@ -72,7 +77,7 @@ def run_case(ctx, case, model=True):
         for t in range(n):
             full = bool(mi["comp"][p["name"]]["full"][t])
             shaft_given = mi["comp"][p["name"]]["shaft"][t]
-            balancing = p["name"] in case.get("balancing_pti", [])
+            balancing = p["name"] in case.get("balancing_pti", []) and not full
             ein, sout = float(eobs[p["name"]]["in"][t]), float(mobs[p["name"]]["out"][t])
             L = sum(mobs[c["name"]]["in"][t] for c in M.by_line(spec, ln, "mech_load"))
             cov = inside(shaft_given, ein, sout, *([L] if full else []))
@@ -89,10 +94,10 @@ def run_case(ctx, case, model=True):
             drawn = sum(eobs[c["name"]]["in"][t] for c in members if c["kind"] not in E.SOURCE_KINDS)
             ei = R.elec_inputs(case)
             cap = sum(c["rated"] for c in members if c["kind"] in E.SOURCE_KINDS and ei["comp"][c["name"]]["status"][t] and ei["comp"][c["name"]]["share"][t] == 0)
-            cap += sum(c["rated"] for c in members if c["kind"] in BAL and ei["comp"][c["name"]]["status"][t] and ei["comp"][c["name"]]["mode"][t] == 0)
+            cap += sum(c["rated"] for c in members if c["kind"] in BAL and ei["comp"][c["name"]]["status"][t] and emode(c["name"], t) == 0)
             # load fraction the bus asks of its balancing units (sources with share 0, storage and PTI/PTO in mode 0)
             is_bal = lambda c: (c["kind"] in E.SOURCE_KINDS + BAL and ei["comp"][c["name"]]["status"][t] and ((c["kind"] in E.SOURCE_KINDS and ei["comp"][c["name"]]["share"][t] == 0)
-                                                                        or (c["kind"] in BAL and ei["comp"][c["name"]]["mode"][t] == 0)))
+                                                                        or (c["kind"] in BAL and emode(c["name"], t) == 0)))
             need = sum(eobs[c["name"]]["in"][t] for c in members if c["kind"] not in E.SOURCE_KINDS and not is_bal(c)) \
                 - sum(eobs[c["name"]]["out"][t] for c in members if c["kind"] in E.SOURCE_KINDS and not is_bal(c))
             over = [c["name"] for c in members if c["name"] in case.get("balancing_pti", []) and cap > 0 and abs(need / cap) > 0.98]
@@ -205,7 +210,9 @@ def make_balancing(rng, case):
         chosen = [c for c in ptis if rng.random() < 0.6]
     for c in chosen:
         case["inputs"]["comp"][c["name"]]["mode"] = [0.0] * n
-        case["inputs"]["mech"][c["name"]]["full"] = [False] * n
+        # mode 0 is the constructor's default: a machine left in it may still be asked for full PTI at some step (D55)
+        keep = rng.random() < 0.35 and "idle_step" not in case
+        case["inputs"]["mech"][c["name"]]["full"] = [bool(keep and rng.random() < 0.3) for _ in range(n)]
         names.append(c["name"])
     case["balancing_pti"] = names
 
